@@ -315,6 +315,9 @@ func (g *wgen) gen() {
 		var needs []string
 		if ji > 0 {
 			needs = g.pick(g.jobs[:ji], 1+r.Intn(ji))
+			if r.Chance(1, 6) {
+				needs = append(needs, j) // a job that needs itself (reported as a cycle; `needs.<itself>` is never defined)
+			}
 			bogus := r.Chance(1, 6)
 			if r.Chance(1, 2) && len(needs) == 1 && !bogus {
 				d.w(f, "    needs: ")
@@ -362,6 +365,16 @@ func (g *wgen) gen() {
 				d.n(f, "matrix-key:def", extra)
 				d.w(f, ": 1\n")
 				matrix = append(matrix, extra)
+			}
+			if r.Chance(1, 3) {
+				d.w(f, "        exclude:\n          - ")
+				d.n(f, "matrix-key:use", matrix[0])
+				d.w(f, ": a\n")
+				if r.Chance(1, 3) {
+					d.w(f, "            ")
+					d.n(f, "matrix-key:use", "nosuch_row")
+					d.w(f, ": 1\n")
+				}
 			}
 		}
 		if r.Chance(1, 3) {
@@ -418,6 +431,9 @@ func (g *wgen) gen() {
 			allIDs = append(allIDs, p.id)
 			if p.kind == 1 {
 				allOut[p.id] = actOut
+			}
+			if p.kind == 2 {
+				allOut[p.id] = []string{"cache-hit"}
 			}
 		}
 		d.w(f, "    outputs:\n")
@@ -480,12 +496,22 @@ func (g *wgen) gen() {
 					d.e(f, g.stepExpr(j, needs, matrix, steps, stepIDs, jenv))
 					d.w(f, "\n")
 				}
-			case 2: // setup-node
-				line("uses: actions/setup-node@v4\n")
-				line("with:\n")
-				d.w(f, "          ")
-				d.n(f, "popular-action-input:use", "node-version")
-				d.w(f, ": 20\n")
+			case 2: // bundled popular actions: setup-node, or cache (which declares outputs)
+				if p.id != "" {
+					line("uses: actions/cache@v4\n")
+					line("with:\n")
+					for _, k := range []string{"path", "key"} {
+						d.w(f, "          ")
+						d.n(f, "popular-action-input:use", k)
+						d.w(f, ": k\n")
+					}
+				} else {
+					line("uses: actions/setup-node@v4\n")
+					line("with:\n")
+					d.w(f, "          ")
+					d.n(f, "popular-action-input:use", "node-version")
+					d.w(f, ": 20\n")
+				}
 			default:
 				line("run: echo ")
 				d.e(f, g.stepExpr(j, needs, matrix, steps, stepIDs, jenv))
@@ -507,9 +533,12 @@ func (g *wgen) gen() {
 			}
 			if p.id != "" {
 				stepIDs = append(stepIDs, p.id)
-				if p.kind == 1 {
+				switch p.kind {
+				case 1:
 					steps[p.id] = actOut
-				} else {
+				case 2:
+					steps[p.id] = []string{"cache-hit"}
+				default:
 					steps[p.id] = nil
 				}
 			}
